@@ -151,7 +151,7 @@ ADDENDA = {
  "C16": " Added after seeding: two unseal injections racing each other and a reader of the CA material; one pass of the real background clean-up loop as a thread against all request kinds.",
  "C17": " Added after seeding: tails that force URL re-serialisation, 9 non-printable Unicode runes, absolute URLs that start with this server's own origin text.",
  "C18": " Added after seeding: authority of an absolute-form request line, Host header, sessions whose user name is the payload; payloads that need no quote or bracket; the repository's own customisation templates (the failed-login page renders).",
- "C19": " Added after seeding: an agent already holding foreign identities (one of an unparsable key type); leak detection over every key the client holds.",
+ "C19": " Added after seeding: an agent already holding foreign identities (one of an unparsable key type); leak detection over every key the client holds; part C19A: the `aws-role-cert` entry point (real generateAwsRoleCert, fake STS and keymaster servers).",
  "C20": " Added after seeding: differences between the real event loop and the recorder's functions are violations located in eventLoop; watchdog on every publication, mixed certificate/login long runs against stalled subscribers.",
 }
 
